@@ -35,3 +35,40 @@ Proof. destruct v; reflexivity. Qed.
 
 Example ex_vro_keep v : select_vro default_config (request_opts ex_cfg_keep v) = Ok (EKeep :: ex_vro).
 Proof. destruct v; reflexivity. Qed.
+
+(* the assignment that explains  setup libb  on ex_fw: libb 1.0, base 2.0 *)
+Definition ex_D (n : str) : option str :=
+  if str_eqb n (lit "libb") then Some (lit "1.0")
+  else if str_eqb n (lit "base") then Some (lit "2.0") else None.
+
+(* A world with a version conflict in which a REQUIRED product ends up not set up (why the closure clause
+   of C01 is conditional):
+     c 1.0            -
+     b 1.0            setupRequired(c)
+     b 2.0            -
+     a 1.0            setupRequired(b 1.0)
+     d 1.0            setupRequired(b 2.0)
+     t 1.0            setupRequired(c) setupRequired(a) setupRequired(d)
+   setup t: c, a, b 1.0 (c is already set up), d, then b 2.0 replaces b 1.0 - and the unsetup of b 1.0 unsets
+   its dependency c, which t requires directly. *)
+Definition cx_prod (n v : string) (acts : list action) : product :=
+  {| p_name := lit n; p_version := lit v; p_dir := lit "/s/" ++ lit n ++ lit "/" ++ lit v;
+     p_actions := acts ++ [APath false (lit "PATH") (lit "/s/" ++ lit n ++ lit "/" ++ lit v ++ lit "/bin") c_colon] |}.
+Arguments cx_prod (n v)%string acts.
+
+Definition cx_world : world :=
+  [ cx_prod "c" "1.0" [];
+    cx_prod "b" "1.0" [ASetup false (lit "c") false];
+    cx_prod "b" "2.0" [];
+    cx_prod "a" "1.0" [ASetup false (lit "b") false];
+    cx_prod "d" "1.0" [ASetup false (lit "b") false];
+    cx_prod "t" "1.0" [ASetup false (lit "c") false; ASetup false (lit "a") false; ASetup false (lit "d") false] ].
+
+Definition cx_fw : fworld :=
+  {| fw_products := cx_world;
+     fw_lines := [ (lit "a", lit "1.0", [li_v "1.0"]); (lit "d", lit "1.0", [li_v "2.0"]) ];
+     fw_tags := [ (lit "c", lit "current", lit "1.0"); (lit "b", lit "current", lit "2.0");
+                  (lit "a", lit "current", lit "1.0"); (lit "d", lit "current", lit "1.0");
+                  (lit "t", lit "current", lit "1.0") ] |}.
+
+Definition cx_order : list str := [lit "c"; lit "b"; lit "a"; lit "d"; lit "t"].
